@@ -1106,17 +1106,20 @@ class MoneyConverter:
             raise ValueError(f"Not a valid period: {validity}.")
         # check type of validity
         type_of_validity = self._type_of_validity
+        if type_of_validity is not None and \
+                type_of_validity is not type(validity):
+            raise ValueError('Different types of validity periods given.')
+        # create all rates before changing anything, so that a rejected
+        # update leaves the converter unchanged
+        base_currency = self._base_currency
+        rates = [((validity, term_currency),
+                  ExchangeRate(base_currency, unit_multiple, term_currency,
+                               term_amount))
+                 for term_currency, term_amount, unit_multiple in rate_specs]
+        # update type of validity and internal dict
         if type_of_validity is None:
             self._type_of_validity = type(validity)
-        elif type_of_validity is not type(validity):
-            raise ValueError('Different types of validity periods given.')
-        # update internal dict
-        base_currency = self._base_currency
-        it = (((validity, term_currency),
-               ExchangeRate(base_currency, unit_multiple, term_currency,
-                            term_amount))
-              for term_currency, term_amount, unit_multiple in rate_specs)
-        self._rate_dict.update(it)
+        self._rate_dict.update(rates)
 
     def get_rate(self, unit_currency: Currency, term_currency: Currency,
                  effective_date: Optional[date] = None) \
